@@ -190,6 +190,38 @@ pub struct BatchCfg {
     pub first_index: u64,
     /// Hand-written plans executed before the generated ones (run indices 0..directed.len()).
     pub directed: Vec<serde_json::Value>,
+    /// Execute only the run with this batch-relative number (supervisor re-execution).
+    pub only: Option<u64>,
+}
+
+/// In-flight bookkeeping for the supervising parent process: which run each worker is executing,
+/// written to the file named by VERIF_INFLIGHT (fixed-size slots, one per worker, plus one for the
+/// confirm / minimise phase). If this process dies abnormally (a panic inside a destructor during
+/// unwinding aborts the process and cannot be caught), the parent finds the culprit among them.
+pub mod inflight {
+    use std::os::unix::fs::FileExt;
+    use std::sync::OnceLock;
+
+    pub const SLOT: usize = 32;
+    static FILE: OnceLock<Option<std::fs::File>> = OnceLock::new();
+
+    fn file() -> Option<&'static std::fs::File> {
+        FILE.get_or_init(|| {
+            let p = std::env::var("VERIF_INFLIGHT").ok()?;
+            std::fs::OpenOptions::new().write(true).create(true).truncate(false).open(p).ok()
+        })
+        .as_ref()
+    }
+
+    pub fn set(slot: usize, tag: char, i: u64) {
+        if let Some(f) = file() {
+            let mut buf = [b' '; SLOT];
+            let s = format!("{tag} {i}");
+            buf[..s.len()].copy_from_slice(s.as_bytes());
+            buf[SLOT - 1] = b'\n';
+            let _ = f.write_at(&buf, (slot * SLOT) as u64);
+        }
+    }
 }
 
 pub struct Found {
@@ -239,7 +271,7 @@ pub fn run_batch(cfg: &BatchCfg, known: &[KnownFinding]) -> BatchOut {
     let known: Arc<Vec<KnownFinding>> = Arc::new(known.to_vec());
 
     std::thread::scope(|scope| {
-        for _ in 0..cfg.workers {
+        for worker in 0..cfg.workers {
             let next = next.clone();
             let stop = stop.clone();
             let out = out.clone();
@@ -248,10 +280,17 @@ pub fn run_batch(cfg: &BatchCfg, known: &[KnownFinding]) -> BatchOut {
                 if stop.load(Ordering::Relaxed) || Instant::now() >= deadline {
                     break;
                 }
-                let i = next.fetch_add(1, Ordering::Relaxed);
+                let mut i = next.fetch_add(1, Ordering::Relaxed);
                 if i >= cfg.max_runs {
                     break;
                 }
+                if let Some(only) = cfg.only {
+                    if i > 0 {
+                        break;
+                    }
+                    i = only;
+                }
+                inflight::set(worker, 'R', i);
                 let index = cfg.first_index + i;
                 let seed = run_seed(cfg.base_seed, index);
                 let nd = cfg.directed.len() as u64;
